@@ -317,6 +317,358 @@ def r4_pops(ctx, F):
         ctx.violation("pipe-order", "processor/src/operations/io_ops.rs", "op_pipe places the advice words in a different element order than op_mstream places memory words")
 
 
+# ---- R5: the in-VM checks of the bit-counting hints are exact -------------------------------------------------------------
+M32 = 2 ** 32 - 1
+P_ = 2 ** 64 - 2 ** 32 + 1
+
+
+def reference_cube(kind, h):
+    """(care, value) over the 64-bit integer of the operand such that  n & care == value  <=>  kind(n) == h ;  None when no
+    operand has that count. The u32 functions are defined on 32-bit operands (bits 32..63 must be 0)."""
+    hi = M32 << 32
+    if kind == "ilog2":
+        if not 0 <= h <= 63:
+            return None
+        return (((2 ** 64 - 1) >> h) << h, 1 << h)
+    if not 0 <= h <= 32:
+        return None
+    if kind == "ctz":
+        return (hi | ((2 ** (h + 1) - 1) & M32), (1 << h) & M32)
+    if kind == "cto":
+        return (hi | ((2 ** (h + 1) - 1) & M32), (2 ** h - 1) & M32)
+    top = lambda k: (M32 >> (32 - k)) << (32 - k) if k else 0        # k leading bits
+    if kind == "clz":
+        return (hi | top(min(h + 1, 32)), (1 << (31 - h)) if h < 32 else 0)
+    if kind == "clo":
+        return (hi | top(min(h + 1, 32)), top(h))
+    raise KeyError(kind)
+
+
+def ev(x, env):
+    """concrete value of a hint-only term under env (variable -> int); None when it mentions anything else"""
+    if isinstance(x, bool):
+        return int(x)
+    if isinstance(x, int):
+        return x
+    if isinstance(x, Poly):
+        tot = 0
+        for m, c in x.t.items():
+            v = c
+            for var, e in m:
+                if var in env:
+                    val = env[var]
+                elif var in procmodel.FELT_TERMS:
+                    val = ev(procmodel.FELT_TERMS[var], env)
+                    if val is not None:
+                        val %= P_
+                else:
+                    val = None
+                if val is None:
+                    return None
+                v = v * pow(val, e, P_) % P_
+            tot = (tot + v) % P_
+        return tot
+    if isinstance(x, Term):
+        a = [ev(y, env) for y in x.args]
+        if any(v is None for v in a):
+            return None
+        op = x.op
+        if op in ("as_int", "as_u64"):
+            return a[0] % 2 ** 64
+        if op == "as_u32":
+            return a[0] % 2 ** 32
+        if op == "&":
+            return a[0] & a[1]
+        if op == ">>":
+            return a[0] >> a[1]
+        if op == "<<":
+            return (a[0] << a[1]) % 2 ** 64
+        if op == "eq":
+            return int(a[0] == a[1])
+        if op == "ne":
+            return int(a[0] != a[1])
+        if op == "<=":
+            return int(a[0] <= a[1])
+        if op == "<":
+            return int(a[0] < a[1])
+        if op == "+":
+            return a[0] + a[1]
+        if op == "-":
+            return a[0] - a[1]
+        if op == "*":
+            return a[0] * a[1]
+        if op == "not":
+            return int(not a[0])
+    return None
+
+
+def truth_of(v):
+    return (v == ("not", [0])) if isinstance(v, tuple) else (bool(v) if isinstance(v, (int, bool)) else None)
+
+
+def shift_chain(x):
+    """x == floor(as_int(X) / 2^k) for a polynomial X: returns (X, k) or None"""
+    k = 0
+    while True:
+        if isinstance(x, Poly):
+            vs = sorted(x.vars())
+            if len(vs) == 1 and x == Poly.var(vs[0]) and vs[0] in procmodel.FELT_TERMS:
+                x = procmodel.FELT_TERMS[vs[0]]
+                continue
+            return (x, k)
+        if isinstance(x, Term) and x.op in ("as_int", "as_u64") and len(x.args) == 1:
+            x = x.args[0]
+            continue
+        if isinstance(x, Term) and x.op == ">>" and isinstance(x.args[1], int):
+            k += x.args[1]
+            x = x.args[0]
+            continue
+        return None
+
+
+def hint_candidates(guards, adv):
+    """finite set of hint values a path admits, from a guard  floor(as_int(X)/2^k) == 0  with X = c*adv + d ; None when the path
+    does not bound the hint"""
+    for c, v, l in guards:
+        if not (isinstance(c, Term) and c.op == "eq" and truth_of(v) is True):
+            continue
+        a, b = c.args
+        if isinstance(b, Poly) and b.const_value() == 0:
+            pass
+        elif isinstance(a, Poly) and a.const_value() == 0:
+            a = b
+        else:
+            continue
+        sc = shift_chain(a)
+        if sc is None or not isinstance(sc[0], Poly) or sc[0].vars() != {adv} or sc[0].degree() != 1 or sc[1] > 8:
+            continue
+        X, k = sc
+        c1 = X.coeff_of(adv).const_value()
+        d = X.without(adv).const_value() or 0
+        if c1 is None:
+            continue
+        inv = pow(c1, P_ - 2, P_)
+        return sorted(((val - d) * inv) % P_ for val in range(2 ** k))
+    return None
+
+
+def operand_atom(x):
+    """a stack value that is the operand or one of its 32-bit halves: ('full'|'lo'|'hi', operand variable)"""
+    if not isinstance(x, Poly):
+        return None
+    vs = sorted(x.vars())
+    if len(vs) != 1 or x != Poly.var(vs[0]):
+        return None
+    v = vs[0]
+    if re.match(r"^e\d+$", v):
+        return ("full", v)
+    t = procmodel.FELT_TERMS.get(v)
+    if t is None:
+        return None
+    r = repr(t)
+    m = re.match(r"^as_u64\(as_u32\(as_int\((e\d+)\)\)\)$", r)
+    if m:
+        return ("lo", m.group(1))
+    m = re.match(r"^>>\(as_int\((e\d+)\), 32\)$", r)
+    if m:
+        return ("hi", m.group(1))
+    return None
+
+
+class Cube:
+    """conjunction of bit constraints on the operand's 64-bit integer"""
+    def __init__(self):
+        self.care, self.val, self.sat = 0, 0, True
+
+    def add(self, care, val, shift=0):
+        care, val = care << shift, val << shift
+        if val & ~care:
+            self.sat = False
+            return
+        both = self.care & care
+        if (self.val & both) != (val & both):
+            self.sat = False
+            return
+        self.care |= care
+        self.val |= val
+
+    def key(self):
+        return (self.care, self.val) if self.sat else None
+
+
+def path_cube(r, operand):
+    """accepted operand set of a successful path as a cube; raises Undecided for conditions outside the recognised forms"""
+    cube = Cube()
+    ands = {}
+    for e in r["effects"]:
+        if e[0] == "u32and":
+            ands[repr(e[3])] = (e[1], e[2])
+    u32_atoms = set()
+
+    def constrain(atom, care, val):
+        kind, var = atom
+        if var != operand:
+            raise Undecided("condition on %s, which is not the operand" % var)
+        if kind == "hi":
+            cube.add(care, val, 32)
+        else:
+            cube.add(care, val, 0)
+            if kind == "full":
+                u32_atoms.add(var)
+
+    for c, v, l in r["guards"]:
+        if not isinstance(c, Term):
+            raise Undecided("guard %r" % (c,))
+        if c.op == "u32pair":
+            continue        # ok path: both operands of the bitwise chiplet are u32 (handled through the effects below)
+        lv = c.leaves()
+        if not any(re.match(r"^e\d+|u32and#", x) or (x in procmodel.FELT_TERMS and re.search(r"\be\d+\b", repr(procmodel.FELT_TERMS[x]))) for x in lv):
+            continue        # hint-only guard
+        t = truth_of(v)
+        if c.op == "<=" and repr(c.args[1]) == str(M32) and t is True:
+            a = c.args[0].args[0] if isinstance(c.args[0], Term) and c.args[0].op == "as_int" else c.args[0]
+            at = operand_atom(a)
+            if at and at[0] in ("lo", "hi"):
+                continue    # halves produced by U32split are u32 by construction
+            if at and at[0] == "full":
+                constrain(at, M32 << 32, 0)
+                continue
+        if c.op == "eq" and t is True:
+            a, b = c.args
+            for x, y in ((a, b), (b, a)):
+                if isinstance(y, Poly) and repr(y) in ands:
+                    m, z = ands[repr(y)]
+                    if isinstance(z, Poly) and z.const_value() is not None:
+                        m, z = z, m
+                    mc = m.const_value() if isinstance(m, Poly) else (m if isinstance(m, int) else None)
+                    at = operand_atom(z)
+                    if mc is None or at is None:
+                        raise Undecided("bitwise AND of %r and %r" % (m, z))
+                    if at[0] == "full":
+                        constrain(at, M32 << 32, 0)     # the chiplet accepted the operand: it is a u32
+                    if isinstance(x, Poly) and x.const_value() is not None:
+                        constrain(at, mc & M32, x.const_value()) if x.const_value() <= M32 else setattr(cube, "sat", False)
+                        break
+                    if operand_atom(x) == at:
+                        constrain(at, ~mc & M32, 0)
+                        break
+                    raise Undecided("comparison of %r with %r" % (x, y))
+            else:
+                raise Undecided("equality %r" % (c,))
+            continue
+        raise Undecided("condition %r = %r" % (c, v))
+    # operands of the bitwise chiplet on an ok path are u32
+    for name, (m, z) in ands.items():
+        for x in (m, z):
+            cv = x.const_value() if isinstance(x, Poly) else None
+            if cv is not None and cv > M32:
+                cube.sat = False
+            at = operand_atom(x) if cv is None else None
+            if at and at[0] == "full" and at[1] == operand:
+                cube.add(M32 << 32, 0)
+    return cube
+
+
+HINT_KINDS = {"U32Clz": "clz", "U32Ctz": "ctz", "U32Clo": "clo", "U32Cto": "cto", "ILog2": "ilog2"}
+
+
+def describe(cube):
+    if cube is None:
+        return "no operand"
+    care, val = cube
+    return "{n : n & 0x%x == 0x%x}" % (care, val)
+
+
+def r5_exact(ctx, F):
+    L = lowering.lower_all(F)
+    ctx.floor("bit-count-hints", len([n for n in HINT_KINDS if n in L]), 5)
+    for n, kind in HINT_KINDS.items():
+        loc = "assembly/src/assembler/instruction/%s" % ("field_ops.rs" if n == "ILog2" else "u32_ops.rs")
+        lps = [lp for lp in L[n].paths if lp["outcome"] == "ok" and path_feasible(lp["guards"])]
+        if len(lps) != 1:
+            ctx.inst(key=n, nontrivial=True)
+            ctx.violation("UNANALYSABLE|%s" % n, loc, "%d lowering paths" % len(lps))
+            continue
+        try:
+            rs = procmodel.run_sequence(F, lps[0]["ops"], max_paths=6000, release=True)
+        except Exception as e:
+            ctx.inst(key=n, nontrivial=True)
+            ctx.violation("UNANALYSABLE|%s" % n, loc, str(e)[:300])
+            continue
+        bad = [r for r in rs if r["outcome"][0] in ("unanalysable", "panic")]
+        if bad:
+            ctx.inst(key=n, nontrivial=True)
+            ctx.violation("UNANALYSABLE|%s" % n, loc, "operation model: %s" % (bad[0]["outcome"],))
+            continue
+        oks = [r for r in rs if r["outcome"] == ("ok",) and path_feasible(r["guards"])]
+        accepted = {}      # hint -> list of cubes
+        undecided = False
+        for r in oks:
+            advs = sorted({v for g in r["guards"] if isinstance(g[0], Term) for v in g[0].leaves() if str(v).startswith("adv#")})
+            top = r["stack"][0]
+            if len(advs) != 1 or not (isinstance(top, Poly) and top == Poly.var(advs[0])):
+                ctx.violation("result-not-hint|%s" % n, loc, "%s: a successful path leaves %s on top of the stack (advice values %s)" % (n, top, advs))
+                undecided = True
+                break
+            adv = advs[0]
+            cands = hint_candidates(r["guards"], adv)
+            if cands is None:
+                ctx.violation("UNANALYSABLE|%s" % n, loc, "%s: a successful path does not bound the hint (no condition floor(f(hint)/2^k) == 0 found)" % n)
+                undecided = True
+                break
+            hint_guards = [(c, v) for c, v, l in r["guards"] if isinstance(c, Term) and c.op != "u32pair" and ev(c, {adv: 0}) is not None]
+            hs = []
+            for h in cands:
+                okh = True
+                for c, v in hint_guards:
+                    val = ev(c, {adv: h})
+                    if isinstance(v, tuple):      # ('not', [k]): value differs from k
+                        okh = okh and val not in v[1]
+                    else:
+                        okh = okh and val == int(v)
+                    if not okh:
+                        break
+                if okh:
+                    hs.append(h)
+            try:
+                cube = path_cube(r, "e0")
+            except Undecided as e:
+                ctx.violation("UNANALYSABLE|%s" % n, loc, "%s: %s" % (n, str(e)[:250]))
+                undecided = True
+                break
+            if not cube.sat:
+                continue
+            # the rest of the stack: the operand is consumed, nothing else changes
+            if [repr(x) for x in r["stack"][1:8]] != ["e%d" % i for i in range(1, 8)]:
+                ctx.violation("stack-effect|%s" % n, loc, "%s leaves %s below the result" % (n, [repr(x) for x in r["stack"][1:4]]))
+            for h in hs:
+                accepted.setdefault(h, []).append(cube.key())
+        if undecided:
+            ctx.inst(key=n, nontrivial=True)
+            continue
+        rng = range(0, 64 if kind == "ilog2" else 33)
+        for h in sorted(set(accepted) | set(rng)):
+            ctx.inst(key="%s|hint=%s" % (n, h if h < 2 ** 63 else "p-%d" % (P_ - h)), nontrivial=True)
+            ref = reference_cube(kind, h) if h < 2 ** 63 else None
+            got = sorted(set(accepted.get(h, [])))
+            ok = (got == [ref]) if ref is not None else not got
+            ctx.oblig(ok)
+            if not ok:
+                hh = str(h) if h < 2 ** 63 else "p-%d" % (P_ - h)
+                if ref is None:
+                    what = "hint-accepted-out-of-range"
+                    msg = "%s completes with result %s for operands %s, but no operand has %s = %s" % (n, hh, " or ".join(describe(g) for g in got), kind, hh)
+                elif not got:
+                    what = "honest-hint-rejected"
+                    msg = "%s never completes with the correct result %s (operands %s): an honest host fails" % (n, hh, describe(ref))
+                else:
+                    what = "hint-check-inexact"
+                    msg = "%s completes with result %s exactly for operands %s; %s(n) = %s holds exactly for %s: a dishonest host can return %s for other operands, or the honest result is rejected" % (n, hh, " or ".join(describe(g) for g in got), kind, hh, describe(ref), hh)
+                ctx.violation("%s|%s|hint=%s" % (what, n, hh), loc, msg)
+        ctx.sample({"instruction": n, "composed_paths": len(rs), "successful_paths": len(oks), "hints_with_accepting_path": len(accepted),
+                    "example": {str(h): describe(accepted[h][0]) for h in sorted(accepted)[:3]}})
+
+
 def run(ctx, F):
     ctx.trusted += ["rustc MIR via mirfacts", "lowering extractor and operation model (per-operation dependency summaries)", "vlib/masm.py integer model for the stdlib division routines",
                     "field facts: inverses in F_p[x]/(x^2 - x + 2) are unique; a = q*b + r with 0 <= r < b determines q, r"]
@@ -325,4 +677,5 @@ def run(ctx, F):
     ctx.run_rule("C09-R1", "every advice value of a hint-assisted instruction reaches a failing check that also depends on the operand; ext2inv/ext2div checks state hint * operand = target exactly", r1_lowered_hints, F)
     ctx.run_rule("C09-R2", "u64 div/mod/divmod: the assertions imply a = q*b + r and r < b, and all advice limbs are range-checked", r2_division, F)
     ctx.run_rule("C09-R3", "op_mpverify / op_mrupdate compare the computed root with the stack's root and fail before writing; mtree_* lowerings contain the verifying operation", r3_merkle, F)
+    ctx.run_rule("C09-R5", "u32clz/ctz/clo/cto and ilog2: for every hint value, the set of operands for which the lowered check sequence completes equals the set of operands whose count is that value (bit-cube comparison over all composed paths)", r5_exact, F)
     ctx.run_rule("C09-R4", "advice pops: adv_push.n = n AdvPop (1..16), adv_loadw = AdvPopW with the documented element order, adv_pipe = Pipe with MStream's order", r4_pops, F)
